@@ -12,6 +12,7 @@ import Driver.Ops.Layers
 import Driver.Ops.Aes
 import Driver.Ops.Fault
 import Driver.Ops.Spec
+import Driver.Ops.Fs
 /- Dispatch table: op-name prefix → handler (model evaluation → canonical response line).
    One file per stream under `Driver/Ops/`; register it here. -/
 
@@ -30,7 +31,8 @@ def handlers : List (String × (String → Args → Option String)) :=
     ("align.", opAlign),
     ("layers.", opLayers),
     ("aes.", opAes),
-    ("spec.", opSpec) ]
+    ("spec.", opSpec),
+    ("fs.", opFs) ]
 
 def dispatch (op : String) (a : Args) : String :=
   match handlers.find? (fun h => op.startsWith h.1) with
